@@ -9,6 +9,13 @@ package netpoll
 // Reader op mix and pace and checks every byte against its stream position; the sender closes after its
 // last Flush returned nil, and the receiver must have got every byte before it sees end-of-stream.
 //
+// Scenario class jitter=true ("for all interleavings of the user goroutines with the poller goroutine"): the SENDER's
+// operator.poll is wrapped by vsJitterPoll, which forwards every call unchanged to the real poll and only sleeps 0 or 0.3 ms in
+// front of a Control call (what a preempted thread or a slow epoll_ctl does): the windows of the flusher/poller hand-off
+// (PollR2RW by the flusher, PollRW2R + wake-up by the poller) become milliseconds wide.  The sender pushes back-to-back
+// payloads larger than the 4 KB socket buffer, so every flush completes through the poller.  No call is dropped, failed or
+// reordered.  A progress watchdog reports the stall (nothing read for vsJitterStall although the sender has not finished).
+//
 // Scenario class poll=true ("any pace of Reader calls"): the receiver is a POLLING reader - it never blocks in
 // waitRead but loops `if Len()==0 { Release(); continue }; <random Reader op on at most Len() bytes>` - and the
 // sender is the raw peer descriptor writing the stream in pieces of 1..48 bytes, so that Release() (operator
@@ -42,13 +49,34 @@ type vsScenario struct {
 	smallBuf  bool
 	slowRead  bool
 	poll      bool // polling reader + raw small-piece sender (vsRunPoll)
+	jitter    bool // delays in front of the sender's Control calls (vsJitterPoll), large back-to-back payloads
 }
+
+// vsJitterPoll forwards to the real poll; Control is preceded by a pause of 0 or 0.3 ms (seeded).
+type vsJitterPoll struct {
+	Poll
+	mu sync.Mutex
+	r  *rand.Rand
+}
+
+func (p *vsJitterPoll) Control(operator *FDOperator, event PollEvent) error {
+	p.mu.Lock()
+	d := p.r.Intn(2)
+	p.mu.Unlock()
+	if d == 1 {
+		time.Sleep(300 * time.Microsecond)
+	}
+	return p.Poll.Control(operator, event)
+}
+
+const vsJitterStall = 10 * time.Second
 
 type vsResult struct {
 	ok     bool
 	reason string
 	got    int
 	ops    map[string]int
+	ms     int // wall time of the scenario
 }
 
 // vsSend writes s.total bytes of the stream through w with a random API mix.
@@ -530,6 +558,9 @@ func vsRun(s vsScenario) (res vsResult) {
 		if err := sc.init(&netFD{fd: fds[0], network: "unix"}, &options{}); err != nil {
 			return vsResult{reason: "init: " + err.Error(), ops: res.ops}
 		}
+		if s.jitter {
+			sc.operator.poll = &vsJitterPoll{Poll: sc.operator.poll, r: rand.New(rand.NewSource(int64(s.seed)*31 + 7))}
+		}
 		sender, receiver = sc, rc
 		cleanup = append(cleanup, func() { sc.Close(); rc.Close() })
 	default:
@@ -606,6 +637,23 @@ func vsRun(s vsScenario) (res vsResult) {
 		sendDone <- err
 	}()
 	deadline := time.After(60 * time.Second)
+	if s.jitter {
+		// progress watchdog: with delays only in front of epoll_ctl calls the stream must keep moving
+		stall := make(chan time.Time, 1)
+		go func() {
+			last, lastMove := int64(-1), time.Now()
+			for {
+				time.Sleep(100 * time.Millisecond)
+				if g := atomic.LoadInt64(&got); g != last {
+					last, lastMove = g, time.Now()
+				} else if time.Since(lastMove) >= vsJitterStall {
+					stall <- time.Now()
+					return
+				}
+			}
+		}()
+		deadline = stall
+	}
 	if !s.handler {
 		// blocking reader: read until EOF
 		readDone := make(chan struct{})
@@ -633,13 +681,13 @@ func vsRun(s vsScenario) (res vsResult) {
 		select {
 		case <-readDone:
 		case <-deadline:
-			return vsResult{reason: fmt.Sprintf("hang: reader stuck at %d of %d", atomic.LoadInt64(&got), s.total), got: int(atomic.LoadInt64(&got)), ops: res.ops}
+			return vsResult{reason: fmt.Sprintf("hang: reader stuck at %d of %d%s", atomic.LoadInt64(&got), s.total, vsHangNote(s, sender)), got: int(atomic.LoadInt64(&got)), ops: res.ops}
 		}
 	} else {
 		select {
 		case <-eofCh:
 		case <-deadline:
-			return vsResult{reason: fmt.Sprintf("hang: receiver saw no end-of-stream, got %d of %d", atomic.LoadInt64(&got), s.total), got: int(atomic.LoadInt64(&got)), ops: res.ops}
+			return vsResult{reason: fmt.Sprintf("hang: receiver saw no end-of-stream, got %d of %d%s", atomic.LoadInt64(&got), s.total, vsHangNote(s, sender)), got: int(atomic.LoadInt64(&got)), ops: res.ops}
 		}
 	}
 	var serr error
@@ -663,6 +711,16 @@ func vsRun(s vsScenario) (res vsResult) {
 	return vsResult{ok: true, got: g, ops: res.ops}
 }
 
+// vsHangNote: what the sender side looks like when the stream stopped (diagnostics of a jitter scenario)
+func vsHangNote(s vsScenario, sender Connection) string {
+	sc, ok := sender.(*connection)
+	if !ok || !s.jitter {
+		return ""
+	}
+	return fmt.Sprintf(" (nothing read for %v while the sender had not finished; sender: %d bytes still in its output buffer, flushing=%d, no write error reported; Control calls were only delayed, never dropped)",
+		vsJitterStall, sc.outputBuffer.Len(), atomic.LoadInt32(&sc.keychain[flushing]))
+}
+
 func vsScenarioOf(seed, id int, big bool) vsScenario {
 	r := rand.New(rand.NewSource(int64(seed)*1000003 + int64(id)))
 	totals := []int{1, 2, 100, 4096, 8192, 8193, 65536, 200000, 1 << 20}
@@ -671,10 +729,20 @@ func vsScenarioOf(seed, id int, big bool) vsScenario {
 	}
 	sc := vsScenario{id: id, seed: seed*100000 + id, transport: []string{"pair", "pair", "tcp", "unix"}[r.Intn(4)],
 		handler: r.Intn(3) != 0, total: totals[r.Intn(len(totals))] + r.Intn(3), smallBuf: r.Intn(3) != 0, slowRead: r.Intn(2) == 0}
+	if id%6 == 2 {
+		// every sixth scenario: delays in front of the sender's epoll_ctl calls, every flush larger than the socket buffer
+		sc.jitter, sc.transport, sc.smallBuf = true, "pair", true
+		if sc.total < 200000 {
+			sc.total = 200000 + r.Intn(3)
+		}
+	}
 	if id%6 == 5 {
 		// every sixth scenario: polling reader + raw small-piece sender
 		sc.poll, sc.transport, sc.handler, sc.slowRead = true, "pair", false, false
 		sc.total = []int{300000, 600000, 1 << 20}[r.Intn(3)] + r.Intn(3)
+		if sc.smallBuf {
+			sc.total /= 3 // 4 KB socket buffers: the raw writer blocks every few pieces, three times the switches per byte
+		}
 		if big {
 			sc.total *= 4
 		}
@@ -711,7 +779,10 @@ func VerifStreamMain(args []string) int {
 			defer wg.Done()
 			defer func() { <-sem }()
 			s := vsScenarioOf(*seed, i, *big)
-			results[i] = out{s, vsRun(s)}
+			t0 := time.Now()
+			r := vsRun(s)
+			r.ms = int(time.Since(t0) / time.Millisecond)
+			results[i] = out{s, r}
 		}(i)
 	}
 	wg.Wait()
@@ -725,8 +796,8 @@ func VerifStreamMain(args []string) int {
 			st = "FAIL " + o.r.reason
 			fail++
 		}
-		fmt.Printf("scn seed=%d id=%d transport=%s handler=%v poll=%v total=%d smallbuf=%v slow=%v got=%d ops=%v :: %s\n",
-			*seed, i, o.s.transport, o.s.handler, o.s.poll, o.s.total, o.s.smallBuf, o.s.slowRead, o.r.got, o.r.ops, st)
+		fmt.Printf("scn seed=%d id=%d transport=%s handler=%v poll=%v jitter=%v total=%d smallbuf=%v slow=%v got=%d ms=%d ops=%v :: %s\n",
+			*seed, i, o.s.transport, o.s.handler, o.s.poll, o.s.jitter, o.s.total, o.s.smallBuf, o.s.slowRead, o.r.got, o.r.ms, o.r.ops, st)
 	}
 	if fail > 0 {
 		return 1
